@@ -33,6 +33,7 @@ Inductive expr :=
  | EList (l : list expr)
  | ESet (l : list expr)                           (* {a, b}: a set display *)
  | EListComp (elt : expr) (x : string) (it : expr)   (* [elt for x in it] *)
+ | EDict (l : list (expr * expr))                 (* {k: v, ...}: a dict display *)
  | ETypeIn (o : expr) (classes : list string)     (* type(o) in NAME, NAME a module-level tuple of builtin classes, resolved by the translator *)
  | EUnsupported (what : string).
 
@@ -252,6 +253,13 @@ Definition call_builtin (f : string) (args : list pv) : res pv :=
     | [_; VStr fmt] => if ustr_eqb fmt (U"%Y-%m-%dT%H:%M:%SZ") then Err TypeError else Unmodelled
     | _ => Unmodelled
     end
+  else if String.eqb f "deepcopy" then           (* copy.deepcopy: the identity on the immutable values of the universe (aliasing: Heap.v);
+                                                    instances of user classes and key objects are left out *)
+    match args with
+    | [VObj _] | [VPub _] | [VPriv _] => Unmodelled
+    | [v] => Ok v
+    | _ => Err TypeError
+    end
   else if String.eqb f "sorted" then
     match args with [VList l] => py_sorted l | _ => Unmodelled end
   else if String.eqb f "set" then                (* set(d): the keys of a dict (pairwise distinct in CPython); set(l) for a list of str *)
@@ -303,6 +311,14 @@ Section Interp.
                   match kv with VStr ks => subscript ov ks | _ => Unmodelled end
     | EList l => vs <- evals l ;; Ok (VList vs)
     | ESet l => vs <- evals l ;; Ok (VSet vs)
+    | EDict l =>
+        (* entries evaluated left to right, key before value; str keys only; a repeated key keeps its first position and takes the later value *)
+        (fix build (l : list (expr * expr)) (acc : list (pv * pv)) : res pv :=
+           match l with
+           | [] => Ok (VDict acc)
+           | (ke, ve) :: l' => kv <- eval r ke ;; vv <- eval r ve ;;
+                               match kv with VStr k => build l' (dset acc k vv) | _ => Unmodelled end
+           end) l []
     | EListComp elt x it =>
         iv <- eval r it ;;
         match iv with
